@@ -281,6 +281,10 @@ def coreI (b : BlockingSrc) (result : Res) (logged dropped : Nat) (junk : Bool) 
 /-! ## helpers recognised as a whole -/
 inductive FlushShape | flushesGlobalObserver | unknown     -- `flush_logged_errors`: `return _log_observer.flushErrors(*error_types)`
 deriving DecidableEq, Repr
+/-- `_ErrorObserver._setUp`: the error observer is installed through `_TwistedLogObservers`, i.e. wrapped as a LEGACY observer (so that
+events of the new logging API reach trial's `_LogObserver` in the form it understands) -/
+inductive ObserverShape | installedThroughLegacyWrapper | unknown
+deriving DecidableEq, Repr
 inductive AssertFailsShape | successRaisesFailureTrapsGiven | unknown
 deriving DecidableEq, Repr
 
